@@ -503,6 +503,11 @@ func (f *Frame) applyContractNamed(bi *BInfo, fc *FuncContract, sig *types.Signa
 	for _, c := range fc.Ensures {
 		v, err := post.evalBool(c.Expr)
 		if err != nil {
+			if strings.Contains(err.Error(), "range-over-map") {
+				// a clause about the callee's own iteration order: meaningless for a caller
+				g.note("ensures [%s] of %s speaks about the callee's map iteration: not used at this call", c.Label, disp)
+				continue
+			}
 			g.resolutionFailure(f, fmt.Sprintf("ensures of %s: %v", disp, err))
 			continue
 		}
